@@ -50,6 +50,55 @@ TInit ==
   /\ buf = Tr.from.buf
   /\ bad = "" /\ hist = <<>>
 
+---------------------------------------------------------------------------
+(* The inductive step of the Tier-1 theorem, evaluated on the REAL edge (independent of what PyWriter would do):     *)
+(* from the reader state that mirrors the real writer state, the rows the REAL call put into the flow are read by    *)
+(* the Tier-1 reader; they must be valid, denote exactly the statements / declarations of the call, leave no graph   *)
+(* open, and the reader must end up mirroring the REAL successor state.  The initial real state is mirrored by the   *)
+(* reader that has seen the options row; so, by induction over the walked graph (every reachable state x every       *)
+(* call), every history of calls inside the slice is written as a valid stream that denotes its input.              *)
+RECURSIVE Items(_, _, _, _)
+Items(r, rws, i, acc) ==
+  IF i > Len(rws) \/ r.err # "" THEN [rd |-> r, items |-> acc]
+  ELSE LET r2 == RdStep(r, rws[i])
+       IN Items(r2, rws, i + 1, IF r2.err = "" /\ r2.n > r.n THEN Append(acc, r2.item) ELSE acc)
+
+StmtDen(st, g) ==
+  IF PType = PT_TRIPLES THEN [s |-> Den(st[1]), p |-> Den(st[2]), o |-> Den(st[3])]
+  ELSE IF PType = PT_QUADS THEN [s |-> Den(st[1]), p |-> Den(st[2]), o |-> Den(st[3]), g |-> Den(st[4])]
+  ELSE [s |-> Den(st[1]), p |-> Den(st[2]), o |-> Den(st[3]), g |-> g]
+
+ExpOf(ops) ==
+  LET g == IF ops[1].op = "gs" THEN Den(ops[1].g) ELSE [k |-> "none"]
+      RECURSIVE E(_)
+      E(i) == IF i > Len(ops) THEN <<>>
+              ELSE IF ops[i].op = "stmt" THEN <<StmtDen(ops[i].st, g)>> \o E(i + 1)
+              ELSE IF ops[i].op = "ns" THEN <<[ns |-> ops[i].ns[1], iri |-> ops[i].ns[2] \o ops[i].ns[3]]>> \o E(i + 1)
+              ELSE E(i + 1)
+  IN E(1)
+
+KeyReader(k) ==
+  ReaderOf([N |-> TabOf(k.N), P |-> TabOf(k.P), D |-> TabOf(k.D), C |-> NoClaims], <<k.rep[1], k.rep[2], k.rep[3], k.rep[4]>>)
+
+Ind ==
+  LET run == Items(KeyReader(Tr.from), Tr.rows, 1, <<>>)
+      exp == ExpOf(Tr.ops)
+      r   == run.rd
+  IN IF r.err # "" THEN "Valid:" \o r.err
+     ELSE IF "N" \notin DOMAIN Tr.to                        \* the real call raised
+       THEN IF Len(run.items) < Len(exp) /\ SubSeq(exp, 1, Len(run.items)) = run.items THEN "ok" ELSE "Faithful:refused-call-left-a-trace"
+     ELSE IF run.items # exp THEN "Faithful:items"
+     ELSE IF r.gopen THEN "Valid:graph-left-open"
+     ELSE LET m == KeyReader(Tr.to) IN
+          IF r.names # m.names THEN "Mirror:names" ELSE IF r.pfx # m.pfx THEN "Mirror:prefixes" ELSE IF r.dts # m.dts THEN "Mirror:datatypes"
+          ELSE IF <<r.lna, r.lpa, r.lda>> # <<m.lna, m.lpa, m.lda>> THEN "Mirror:last-assigned"
+          ELSE IF <<r.lnu, r.lpu>> # <<m.lnu, m.lpu>> THEN "Mirror:last-used"
+          ELSE IF r.prev # m.prev THEN "Mirror:previous-terms"
+          ELSE "ok"
+
+ReportInd == (hist = <<>> /\ pc = "idle") => PrintT("IND " \o ToJson([id |-> Tr.id, ind |-> Ind]))
+---------------------------------------------------------------------------
+
 Op == Tr.ops[Len(hist) + 1]            \* every op appends exactly one record to hist when it completes (or is refused)
 
 TNext ==
